@@ -135,6 +135,14 @@ func (x *Exec) attributeListingDiff(c *Client, lib, mod string, st *Step) ([]str
 	}
 	libP, libC := splitListing(lib)
 	modP, modC := splitListing(mod)
+	for i := 1; i < len(libP); i++ {
+		if libP[i] == libP[i-1] {
+			// the table lists one address twice: one of the two entries sits under another
+			// address's key - it authorises relaying for a peer it does not name, and the
+			// removal that goes by its address will not find it
+			return []string{"C07", "C01", "C02"}, "permission-table-inconsistent"
+		}
+	}
 	if extra := diff(libP, modP); len(extra) > 0 {
 		// a permission the model does not hold: it would authorise relaying in both directions
 		props := []string{"C07", "C01", "C02"}
